@@ -248,7 +248,7 @@ def build_native(h, d, sanitize=True):
     """native build of the real harness (g++); returns path"""
     exe = os.path.join(d, 'native_real')
     srcs = [h['src'], os.path.join(d, 'native_main.cpp')] + [os.path.join(REPO, 'src', u) for u in h['link']]
-    flags = list(NATFLAGS) + [f for f in h['cxxflags'] if f.startswith('-D') or f.startswith('-I')]
+    flags = list(NATFLAGS) + [f for f in h['cxxflags'] if f.startswith('-D') or f.startswith('-I') or f == '-fno-access-control']
     if sanitize: flags += ['-fsanitize=address,undefined,float-cast-overflow,float-divide-by-zero', '-fno-sanitize-recover=all', '-fno-omit-frame-pointer']
     # compile units in parallel
     objs = []
